@@ -49,7 +49,7 @@ def check_create_arcs(chk, rep, repo):
         rep.ev("ARCS-orientation", e, weight_oriented(e.value, qi, cj),
                "the candidate distance is not d(node i, node j) in this order: for a non-symmetric dissimilarity the "
                "neighbours are ranked by the distance TO i, and differently from calculate_pdf")
-    kparam = sc.slot
+    kparam = sc.k
     rep.fn("ARCS-k", fn, "the insertion slot is the parameter k", kparam == ("param", fn.params[1]),
            f"slot is '{show(kparam)}'", line=sc.per.line)
     i = sc.i
